@@ -25,6 +25,7 @@ using namespace gdstk;
 typedef long double ld;
 static const int GRID_BITS = 40;
 static long g_inexact = 0;
+static size_t g_budget = 96;  // exact distance samples per arc (quick); thorough: 384
 
 // ---------------------------------------------------------------- numbers <-> text
 static bool finite2(const Vec2& v) { return std::isfinite(v.x) && std::isfinite(v.y); }
@@ -154,16 +155,19 @@ static ld seg_dist(ld px, ld py, const Vec2& a, const Vec2& b) {
     ld cr = wx * dy - wy * dx;
     return fabsl(cr) / sqrtl(L);
 }
-// smallest parameter in (tlo, thi] at which the curve passes (numerically) through v
-static double find_t(const std::vector<Vec2>& c, const Vec2& v, double tlo, double thi, ld scale) {
-    const int G = 96;
+// smallest parameter in (tlo, thi] at which the curve passes (numerically) through v; -1 if none.
+// Greedy smallest witnesses succeed whenever an increasing witness sequence exists at all.
+static double find_t_window(const std::vector<Vec2>& c, const Vec2& v, double tlo, double thi, ld scale, ld& best_f, double& best_t) {
+    const int G = 128;
     ld f[G + 1], ts[G + 1];
+    ld accept = (1e-11L * scale) * (1e-11L * scale);
+    bool allzero = true;
     for (int i = 0; i <= G; i++) {
         ts[i] = tlo + (thi - (ld)tlo) * i / G;
         f[i] = bez_dist2(c, ts[i], v);
+        allzero = allzero && f[i] <= accept;
     }
-    ld best_t = thi, best_f = -1;
-    ld accept = (1e-11L * scale) * (1e-11L * scale);
+    if (allzero) return (double)(tlo + (thi - (ld)tlo) / 2);  // the curve rests at v over the whole window
     for (int i = 0; i <= G; i++) {
         bool lmin = (i == 0 || f[i] <= f[i - 1]) && (i == G || f[i] <= f[i + 1]);
         if (!lmin) continue;
@@ -172,18 +176,29 @@ static double find_t(const std::vector<Vec2>& c, const Vec2& v, double tlo, doub
             ld m1 = lo + (hi - lo) / 3, m2 = hi - (hi - lo) / 3;
             if (bez_dist2(c, m1, v) <= bez_dist2(c, m2, v)) hi = m2; else lo = m1;
         }
-        ld tm = (lo + hi) / 2;
-        // prefer parameters representable as the doubles the implementation used
-        double td = (double)tm;
+        double td = (double)((lo + hi) / 2);
+        if (td <= tlo) td = nextafter(tlo, 2.0);
+        if (td > thi) td = thi;
         ld fm = bez_dist2(c, td, v);
-        if (td <= tlo) continue;
         if (fm <= accept) return td;  // first (smallest) acceptable minimum
         if (best_f < 0 || fm < best_f) {
             best_f = fm;
             best_t = td;
         }
     }
-    return (double)best_t;
+    return -1;
+}
+static double find_t(const std::vector<Vec2>& c, const Vec2& v, double tlo, double dtmax, ld scale) {
+    ld best_f = -1;
+    double best_t = std::min(1.0, tlo + dtmax);
+    double th = std::min(1.0, tlo + dtmax * (1 + 1e-9) + 1e-15);
+    double t = find_t_window(c, v, tlo, th, scale, best_f, best_t);
+    if (t >= 0) return t;
+    if (th < 1.0) {
+        t = find_t_window(c, v, th, 1.0, scale, best_f, best_t);
+        if (t >= 0) return t;
+    }
+    return best_t;
 }
 
 // ---------------------------------------------------------------- one polynomial section
@@ -237,12 +252,41 @@ struct ArcInfo {
 };
 static std::string arc_data(const std::string& label, double tol, const ArcInfo& A, const std::vector<Vec2>& v, bool closed_uniform) {
     (void)closed_uniform;
+    const size_t n = v.size() - 1;
     double step = (A.a1 - A.a0) / (double)A.nseg;
     int nq = (int)floor(fabs(step) / (M_PI / 2));
-    std::string s = "arc " + label + " " + hex_dbl(tol) + " " + hex_dbl(A.rx) + " " + hex_dbl(A.ry) + " " + hex_dbl(A.cr) + " " + hex_dbl(A.sr) +
-                    " " + hex_dbl(A.cx) + " " + hex_dbl(A.cy) + " " + hex_dbl(cos(step)) + " " + hex_dbl(sin(step)) + " " +
-                    (step < 0 ? "-1" : "1") + " " + std::to_string(nq) + " " + std::to_string(v.size());
+    std::string s = "arc " + label + " " + hex_dbl(tol) + " " + hex_dbl(A.rx) + " " + hex_dbl(A.ry) + " " + hex_dbl(A.cr * A.rx) + " " +
+                    hex_dbl(-A.sr * A.ry) + " " + hex_dbl(A.sr * A.rx) + " " + hex_dbl(A.cr * A.ry) + " " + hex_dbl(A.cx) + " " +
+                    hex_dbl(A.cy) + " " + hex_dbl(cos(step)) + " " + hex_dbl(sin(step)) + " " + (step < 0 ? "-1" : "1") + " " +
+                    std::to_string(nq) + " " + std::to_string(v.size());
     for (auto& p : v) s += " " + hd2(p);
+    // sample parameters inside the chords' spans: quarter turn index and half-angle tangent on the 2^-bb
+    // grid, 2^-bb <= step / 1024.  At most ~g_budget samples per arc: up to 15 per chord, and for long
+    // polylines the midpoint of every stride-th chord (first and last chord always).
+    size_t m = g_budget / (n ? n : 1);
+    if (m > 16) m = 16;
+    if (m < 2) m = 2;
+    if (m & 1) m++;
+    size_t stride = (n + g_budget - 1) / g_budget;
+    if (stride < 1) stride = 1;
+    int bb = (int)ceil(log2(1024.0 / std::max(fabs(step), 1e-9)));
+    if (bb < 12) bb = 12;
+    if (bb > 28) bb = 28;
+    s += " " + std::to_string(bb);
+    for (size_t k = 0; k < n; k++) {
+        if (!(k % stride == 0 || k + 1 == n)) {
+            s += " 0";
+            continue;
+        }
+        s += " " + std::to_string(m - 1);
+        for (size_t j = 1; j < m; j++) {
+            ld ang = A.a0 + ((ld)A.a1 - A.a0) * ((ld)k + (ld)j / (ld)m) / (ld)n;
+            long long q = llroundl(ang / (M_PIl / 2));
+            ld psi = ang - q * (M_PIl / 2);
+            long long a = llroundl(tanl(psi / 2) * ldexpl(1.0L, bb));
+            s += " " + std::to_string((int)(((q % 4) + 4) % 4)) + " " + hex_i64(a);
+        }
+    }
     return s;
 }
 // max over chords of the distance (ellipse point at the chord's mid parameter and 6 more) -> chord
@@ -599,8 +643,7 @@ static void run_curve(Out& out, const CurveDesc& d) {
                     double dtmax = (k == "bezier") ? 1.0 / (double)s.ctrl.size() : 1.0 / GDSTK_MIN_POINTS;
                     double tl = 0;
                     for (size_t vi = 0; vi + 1 < sv.size(); vi++) {
-                        double th = std::min(1.0, tl + dtmax * (1 + 1e-9) + 1e-15);
-                        double t = find_t(s.ctrl, sv[vi], tl, th, scale);
+                        double t = find_t(s.ctrl, sv[vi], tl, dtmax, scale);
                         ts.push_back(t);
                         tl = t;
                     }
@@ -639,7 +682,7 @@ static void run_curve(Out& out, const CurveDesc& d) {
                     setfail("FAIL " + k + ":last_ctrl last_ctrl is not the last control point of the section");
             }
             // ---- data for the driver
-            data = "poly " + hex_dbl(tol) + " " + hd2(pre) + " " + hd2(pre_ctl) + " " + k + " " + (call.rel ? "1" : "0") + " " +
+            data = "poly " + std::to_string(g_budget) + " " + hex_dbl(tol) + " " + hd2(pre) + " " + hd2(pre_ctl) + " " + k + " " + (call.rel ? "1" : "0") + " " +
                    (call.cycle ? "1" : "0") + " " + std::to_string(call.pts.size());
             for (auto& p : call.pts) data += " " + hd2(p);
             data += " " + std::to_string(hob.size() / 2);
@@ -1141,6 +1184,10 @@ static CurveDesc gen_curve(Rng& g, Out& out, bool thorough) {
                 if (cmdable && rx == ry) rot = 0;
                 double a0 = G.angle_any(), span = G.angle_any();
                 if (span == 0) span = 0.5;
+                if (m == 1 && g.chance(50)) {  // a short stretch around an end of the long axis
+                    a0 = (ry < rx ? 0.0 : M_PI / 2) + (g.coin() ? M_PI : 0.0) + rot - 0.03 * (double)g.below(100) / 100;
+                    span = 0.06 * (double)(1 + g.below(100)) / 100;
+                }
                 double rm = std::max(rx, ry);
                 double lim = (thorough ? 6000.0 : 1500.0) * 2 * sqrt(2 * std::min(1.0, d.tol / rm));
                 if (fabs(span) > lim) span = span > 0 ? lim : -lim;
@@ -1302,12 +1349,22 @@ static void known_inputs(Out& out) {
         d.calls.push_back(c);
         run_curve(out, d);
     }
-    {  // F12
+    {  // F12 as first probed: 4 vertices over a parameter span of 0.32 rad.  Wrongly sized, but this stretch
+       // of the ellipse is nearly straight: the true deviation is 0.18 tol, so no failure is reported here.
         CurveDesc d;
         d.tol = 0.01;
         Call c;
         c.kind = "arc";
         c.num = {100, 1, 0.01, 0.02, 0};
+        d.calls.push_back(c);
+        run_curve(out, d);
+    }
+    {  // F12 around the end of the major axis (radius of curvature 0.01): 3 chords over 2.2 rad of parameter
+        CurveDesc d;
+        d.tol = 0.01;
+        Call c;
+        c.kind = "arc";
+        c.num = {100, 1, -0.02, 0.02, 0};
         d.calls.push_back(c);
         run_curve(out, d);
     }
@@ -1336,6 +1393,7 @@ int main(int argc, char** argv) {
     }
     uint64_t seed = strtoull(argv[1], NULL, 10);
     bool thorough = strcmp(argv[2], "thorough") == 0;
+    if (thorough) g_budget = 384;
     set_error_logger(NULL);
     Out out;
     out.open(argv[3]);
@@ -1348,7 +1406,7 @@ int main(int argc, char** argv) {
     for (auto& c : load_corpus(argc > 4 ? argv[4] : NULL)) run_case(out, c.first, c.second);
     known_inputs(out);
     Rng g(seed);
-    long NC = thorough ? 12000 : 260, NS = thorough ? 6000 : 160;
+    long NC = thorough ? 10000 : 200, NS = thorough ? 5000 : 120;
     for (long i = 0; i < NC; i++) {
         CurveDesc d = gen_curve(g, out, thorough);
         run_curve(out, d);
